@@ -12,6 +12,7 @@ under which output depends only on input and options -
   R12.16 the launcher decides on the status of the child it started, whatever other children the process owns (C14 R14.4 re-used),
   R12.17 (lint) chibicc's own sources do not depend on the order of evaluation of operands / arguments (left-first in the host compiler,
          right-first in chibicc): whole-program effect summaries (may end the run / output / input, static objects written and read) over the call graph.
+  R12.18 no automatic object is read on a path on which it was not written (flow-sensitive definite assignment with whole-program out-parameter summaries; sa/lib_c12da.py).
 Every scanner is also run over /verif/canaries/c12_nondeterminism.c on every run; a scanner that
 no longer flags its canary makes the check ANALYSIS-BROKEN.
 """
@@ -1152,6 +1153,188 @@ def r1217(P, rep, cg):
                 rep.ob('R12.17', '%s:%s:%s' % (u.name, fname, construct), False, msg, where='%s:%d' % (u.name, node.line))
 
 
+# ---- R12.18 definite assignment of automatic objects (sa/lib_c12da.py)
+DA_CANARY = r"""
+void exit(int); int printf(const char *, ...); long strtol(const char *, char **, int);
+typedef struct T T; struct T { T *next; int v; };
+static _Noreturn void die(void) { exit(1); }
+static int probe(const char *p) { return p[0] == '/'; }
+static int lookup(const char *p) { return p[1]; }
+static void always(int *out, int v) { if (v) { *out = 1; return; } *out = 2; }
+static void sometimes(int *out, int v) { if (v) *out = 1; }
+static int maybe(int *out, int v) { if (v) { *out = v; return 1; } return 0; }
+static void range(int *lo, int *hi, long a, long b) { *lo = a; if (b < a) die(); *hi = b; }
+int bad_branch(const char *p) { int idx; if (!probe(p)) idx = lookup(p); return idx; }
+int bad_loop_iteration(const char **v, int n) { int s = 0; for (int i = 0; i < n; i++) { int idx; if (!probe(v[i])) idx = lookup(v[i]); s += idx; } return s; }
+int bad_out_param(int v) { int r; sometimes(&r, v); return r; }
+int bad_zero_trip(int n) { int last; for (int i = 0; i < n; i++) last = i; return last; }
+int bad_switch(int k) { int r; switch (k) { case 1: r = 10; break; case 2: r = 20; } return r; }
+T *bad_list_head(T *a, int n) { T head; T *cur = &head; for (int i = 0; i < n; i++) cur = cur->next = a + i; return head.next; }
+int bad_member(int k) { T t; t.v = k; return t.next != 0; }
+typedef struct { char **data; int len; int cap; } SA;
+static void sa_push(SA *a, char *s) { if (!a->data) { a->data = 0; a->cap = 8; } a->len++; }
+static void sa_init(SA *a) { a->data = 0; a->len = 0; a->cap = 0; }
+int bad_callee_reads(char *s) { SA arr; sa_push(&arr, s); return arr.len; }
+int good_callee_reads(char *s) { SA arr; sa_init(&arr); sa_push(&arr, s); return arr.len; }
+void *malloc(unsigned long); void *calloc(unsigned long, unsigned long); void *realloc(void *, unsigned long);
+T *bad_malloc(void) { T *t = malloc(sizeof(T)); t->v = 1; return t; }
+char **bad_realloc(char **v, int n) { char **w = realloc(v, 8 * n); return w; }
+char **good_realloc(char **v, int n) { v = realloc(v, 8 * (n + 1)); v[n] = 0; return v; }
+T *good_calloc(void) { T *t = calloc(1, sizeof(T)); t->v = 1; return t; }
+int good_branch(const char *p) { int idx; if (probe(p)) idx = 0; else idx = lookup(p); return idx; }
+int good_die(const char *p) { int idx; if (probe(p)) idx = 0; else die(); return idx; }
+int good_out_param(int v) { int r; always(&r, v); return r; }
+int good_cond_out(int v) { int r; if (!maybe(&r, v)) return -1; return r; }
+int good_endptr(const char *p) { char *end; long v = strtol(p, &end, 10); return *end ? -1 : (int)v; }
+int good_switch(int k) { int r; switch (k) { case 1: r = 10; break; case 2: r = 20; break; default: return 0; } return r; }
+int good_loop(int n) { int last; int i = 0; do { last = i; i++; } while (i < n); return last; }
+int good_range(long a, long b) { int lo, hi; range(&lo, &hi, a, b); int last; for (int j = lo; j <= hi; j++) last = j; return last; }
+T *good_list_head(T *a, int n) { T head; T *cur = &head; for (int i = 0; i < n; i++) cur = cur->next = a + i; cur->next = 0; return head.next; }
+int good_goto(int k) { int r; if (k) goto set; r = 1; goto out; set: r = 2; out: return r; }
+int good_and(const char *p) { int idx; if (probe(p) && (idx = lookup(p)) > 0) return idx; return 0; }
+"""
+DA_EXPECT = [('bad_branch', 'idx'), ('bad_loop_iteration', 'idx'), ('bad_out_param', 'r'), ('bad_zero_trip', 'last'), ('bad_switch', 'r'),
+             ('bad_list_head', 'head.next'), ('bad_member', 't.next'), ('bad_callee_reads', 'arr.data')]
+
+
+def _da_construct(name, part):
+    return 'read-of-%s-not-written-on-every-path' % (name if not part else '%s.%s' % (name, part))
+
+
+def _da_msg(fname, name, part, how):
+    return ('%s reads the automatic object `%s` on a path on which nothing was stored into it%s: the value is whatever the stack slot held (it changes with the address-space layout, the '
+            'calls made before and the previous iteration of the enclosing loop), so what the compiler produces no longer depends on input and options only'
+            % (fname, name if not part else '%s.%s' % (name, part), ' (%s)' % how if how else ''))
+
+
+def r1218(P, rep, units):
+    from .. import lib_c12da as D
+    rep.rule('R12.18', 'no value is read from an automatic object that is not written on every path to the read: for every local of the compiler declared without initialiser (arithmetic, '
+                       'enumerated, pointer; struct member-wise) each read is preceded on every path by a store by name, by a store through a pointer of its type when its address is kept in one, or by a call '
+                       'that receives its address and stores through that parameter on every returning path (whole-program summaries, greatest fixpoint; loops may run zero times unless the bounds come '
+                       'ordered from one call; a declaration inside a loop is indeterminate again on every iteration)', floor=25)
+    # canary
+    src = os.path.join(P.dir, 'c12_da_canary.c')
+    j = src + '.json'
+    with open(src, 'w') as f:
+        f.write(DA_CANARY)
+    with open(j, 'w') as f:
+        p = subprocess.run(['clang-14', '-std=c11', '-w', '-fsyntax-only', '-Xclang', '-ast-dump=json', src], stdout=f, stderr=subprocess.PIPE, text=True)
+    if p.returncode != 0:
+        raise AnalysisBroken('clang failed on the R12.18 canary: ' + p.stderr[-300:])
+    cu = Unit(src, j, P.dir)
+    for x in (src, j):
+        try:
+            os.unlink(x)
+        except OSError:
+            pass
+    got = set()
+    for (u, fname, fd, a) in D.World([cu]).results():
+        for (node, name, part, how) in a.reads:
+            got.add((fname, name if not part else '%s.%s' % (name, part)))
+    for (fn, what) in DA_EXPECT:
+        if (fn, what) in got:
+            rep.ob('R12.18', 'canary:%s:flagged-%s' % (fn, what), True, '')
+        else:
+            rep.undecided('R12.18', 'canary:%s:%s' % (fn, what), 'the definite-assignment analysis no longer flags the read of %s in the canary function %s(): the rule is dead' % (what, fn))
+    for (fn, what) in sorted(got):
+        if fn.startswith('good_'):
+            rep.undecided('R12.18', 'canary:%s:false-alarm-%s' % (fn, what), 'the definite-assignment analysis flags the benign canary function %s (%s)' % (fn, what))
+    _declare_1219(rep)
+    hgot = set((f, c) for (f, c, n, m) in scan_heap(cu) if m is not None)
+    for (fn, what) in (('bad_malloc', 'calls-malloc'), ('bad_realloc', 'realloc-result-not-filled')):
+        if (fn, what) in hgot:
+            rep.ob('R12.19', 'canary:%s:flagged-%s' % (fn, what), True, '')
+        else:
+            rep.undecided('R12.19', 'canary:%s:%s' % (fn, what), 'the allocation scanner no longer flags %s in the canary function %s(): the rule is dead' % (what, fn))
+    for (fn, what) in sorted(hgot):
+        if fn.startswith('good_'):
+            rep.undecided('R12.19', 'canary:%s:false-alarm-%s' % (fn, what), 'the allocation scanner flags the benign canary function %s' % fn)
+    # the compiler
+    W = D.World(units)
+    if not W.stable:
+        rep.undecided('R12.18', 'summaries:fixpoint', 'the out-parameter summaries did not stabilise within the round limit')
+    for must in ('error', 'error_tok', 'error_at'):
+        if must not in W.noreturn:
+            rep.undecided('R12.18', 'anchor:%s' % must, 'the diagnostic function %s is no longer known not to return: every path through an error branch would count' % must)
+    nwriters = sum(1 for f, w in W.writes.items() if w and f not in D.LIBC_WRITES)
+    if nwriters < 20:
+        rep.undecided('R12.18', 'summaries:out-parameter-writers', 'only %d functions are recognised as storing through an out-parameter on every returning path (the parser alone has more than 40)' % nwriters)
+    rep.extra['definite_assignment'] = {'out-parameter writers': nwriters, 'rounds': W.rounds, 'ordered out-parameters': {k: sorted(v) for k, v in W.ordered.items()}}
+    for (u, fname, fd, a) in W.results():
+        if getattr(a, 'unstable', False):
+            rep.undecided('R12.18', '%s:%s:labels' % (u.name, fname), 'the states at the labels of %s did not stabilise' % fname, where='%s:%d' % (u.name, fd.line))
+            continue
+        seen = set()
+        for (node, name, part, how) in a.reads:
+            c = _da_construct(name, part)
+            if c in seen:
+                continue
+            seen.add(c)
+            rep.ob('R12.18', '%s:%s:%s' % (u.name, fname, c), False, _da_msg(fname, name, part, how), where='%s:%d' % (u.name, node.line))
+        if a.nplaces and not a.reads:
+            rep.ob('R12.18', '%s:%s:locals-without-initialiser-written-before-every-read' % (u.name, fname), True, '', where='%s:%d' % (u.name, fd.line),
+                   facts={'locals': a.nplaces, 'reads': a.ok_reads})
+
+
+# ---- R12.19 heap objects start zero-filled
+UNZEROED_ALLOC = ('malloc', 'aligned_alloc', 'memalign', 'posix_memalign', 'valloc', 'pvalloc', 'alloca', '__builtin_alloca', 'reallocarray')
+
+
+def scan_heap(u):
+    """(function, construct, node, message | None): allocation calls whose result holds residue of the heap / stack.  realloc is the growth idiom only:
+    the result goes back into the lvalue that was its first argument, and the same function stores into elements of that lvalue afterwards."""
+    for fname, fd in u.functions.items():
+        for c in fd.calls():
+            cal = c.callee()
+            if cal in UNZEROED_ALLOC:
+                yield (fname, 'calls-%s' % cal, c, '%s() obtains memory with %s(): its bytes are whatever the heap (or stack) held, which differs with the allocation history and the '
+                       'address-space layout; every object of the compiler is obtained zero-filled (calloc) so that members nobody stored into read as 0' % (fname, cal))
+            elif cal == 'realloc':
+                a = c.args()
+                par = c.parent
+                while par is not None and par.kind in ('ImplicitCastExpr', 'ParenExpr', 'CStyleCastExpr'):
+                    par = par.parent
+                back = par is not None and par.kind == 'BinaryOperator' and par.opcode == '=' and a and par.inner[0].src() == a[0].strip().src()
+                stores = 0
+                if back:
+                    tgt = par.inner[0].src()
+                    after = False
+                    for n in fd.walk():
+                        if n is par:
+                            after = True
+                        if n.kind == 'BinaryOperator' and n.opcode == '=' and after and n is not par:
+                            l = n.inner[0].strip()
+                            if l.kind == 'ArraySubscriptExpr' and l.inner and l.inner[0].strip().src() == tgt:
+                                stores += 1
+                if back and stores:
+                    yield (fname, '+realloc-grows-%s-and-fills-it' % _slug(a[0].strip().src()), c, None)
+                else:
+                    yield (fname, 'realloc-result-not-filled', c, '%s() takes memory from realloc() %s: the added bytes are heap residue'
+                           % (fname, 'without storing into the elements of the grown array afterwards' if back else 'into another object than the one it grows'))
+
+
+def _declare_1219(rep):
+    rep.rule('R12.19', 'every heap object of the compiler starts zero-filled: no malloc / aligned_alloc / alloca family call in any unit; realloc only grows an array in place whose elements the same function stores into afterwards', floor=8)
+
+
+def r1219(P, rep, units):
+    _declare_1219(rep)
+    for u in units:
+        hits = 0
+        for (fname, construct, node, msg) in scan_heap(u):
+            if msg is None:
+                rep.ob('R12.19', '%s:%s:%s' % (u.name, fname, construct.lstrip('+')), True, '', where='%s:%d' % (u.name, node.line))
+            else:
+                hits += 1
+                rep.ob('R12.19', '%s:%s:%s' % (u.name, fname, construct), False, msg, where='%s:%d' % (u.name, node.line))
+        if not hits:
+            rep.ob('R12.19', '%s:no-unzeroed-allocation' % u.name, True, '')
+    ncalloc = sum(len(fd.calls('calloc')) for u in units for fd in u.functions.values())
+    if ncalloc < 20:
+        rep.undecided('R12.19', 'calloc-sites', 'only %d calloc calls recognised (the compiler allocates its objects in more than 30 places): allocation goes through something this rule does not see' % ncalloc)
+
+
 # ------------------------------------------------------------------------ run ---
 def run(P, rep, tier):
     rep.explanation = ('Determinism clause of C12 only: which functions may obtain a value that differs from run to run (time, pid, random, environment, '
@@ -1161,7 +1344,9 @@ def run(P, rep, tier):
                        'a miscompilation of a construct chibicc\'s own sources use is covered by re-running the C01/C02 translation rules (R12.6).')
     rep.assumptions += ['libc functions outside the source table are deterministic functions of their arguments and of file contents',
                         'pointer comparisons and pointer differences are within one object (not checked)',
-                        'uninitialised memory is not read, except for local unions (R12.13)',
+                        'uninitialised heap memory is not read (automatic objects: R12.18 for scalars, pointers and struct members; R12.13 for unions; local arrays are not followed)',
+                        'R12.18: a C-library call stores through its result parameters as the standard says (strtol endptr, open_memstream, stat/wait on success - callers test the result); '
+                        'a store through a pointer of the type of a local whose address is kept in a pointer counts as a store into that local (aliases are not followed)',
                         'R12.17: two unordered operand evaluations interfere only through the end of the run (exit reachable, unreachable() excluded), output, input, '
                         'static objects assigned by name (variable, member, element, or address taken) and locals named in the operands; writes to heap objects through pointers are not followed; '
                         'a function whose address is taken counts as called by the function that takes it; a call through a pointer has every effect']
@@ -1182,6 +1367,8 @@ def run(P, rep, tier):
     r1216(P, rep, cg)
     r1217(P, rep, cg)
     units = [P.unit(n) for n in P.unit_names]
+    r1218(P, rep, units)
+    r1219(P, rep, units)
     # ---------------- R12.1
     allowed_seen = {}
     idkeys = identity_key_functions(units)
